@@ -145,6 +145,8 @@ func c16Specs() []c16Spec {
 		{name: "X4", conns: []c16Conn{{"c1", [][]byte{start, q}}, {"c2", [][]byte{start}}}, closers: 1, secondClose: true, desc: "two connections + Close, then a second Close after the first returned"},
 		{name: "X5", conns: nil, closers: 1, closeBeforeServe: false, desc: "Close racing with the start of Serve (no connections)"},
 		{name: "X6", conns: []c16Conn{{"c1", [][]byte{start, batch}}}, closers: 1, desc: "extended batch Parse/Bind/Execute/Sync + Close"},
+		{name: "X7", conns: []c16Conn{{"c1", [][]byte{start, pgproto.Cat(pgproto.Bind("", "nope", nil, nil, nil), pgproto.Execute("", 0), pgproto.Describe('S', ""), pgproto.Sync()), q}}}, closers: 1,
+			desc: "a failed extended message followed by discarded messages, a Sync and a Query + one Close (every admitted command must be released again)"},
 	}
 }
 
@@ -217,19 +219,16 @@ func c16Scenario(spec c16Spec) *Scenario {
 					}
 				}
 				if len(closes) > 0 && len(x.Panics) == 0 {
-					// T = the moment the (last concurrent) Close call returned
-					T := 0
-					for i, c := range closes {
-						if i < spec.closers && c > T {
-							T = c
-						}
-					}
-					for _, s := range spans {
-						switch {
-						case s.start > T:
-							fail("handler-started-after-close", fmt.Sprintf("%s %s started at @%d, after Close had returned at @%d", s.conn, s.kind, s.start, T))
-						case s.start < T && (s.end == -1 || s.end > T):
-							fail("close-returned-during-handler", fmt.Sprintf("Close returned at @%d while %s %s was running (@%d..@%d)", T, s.conn, s.kind, s.start, s.end))
+					// every call to Close "returns only after every command handler that had started has
+					// finished, and once it has returned no parser or statement function begins executing"
+					for ci, T := range closes {
+						for _, s := range spans {
+							switch {
+							case s.start > T:
+								fail("handler-started-after-close", fmt.Sprintf("%s %s started at @%d, after Close call #%d had returned at @%d", s.conn, s.kind, s.start, ci+1, T))
+							case s.start < T && (s.end == -1 || s.end > T):
+								fail("close-returned-during-handler", fmt.Sprintf("Close call #%d returned at @%d while %s %s was running (@%d..@%d)", ci+1, T, s.conn, s.kind, s.start, s.end))
+							}
 						}
 					}
 				}
